@@ -48,7 +48,8 @@ def one(run, idx):
         ob.status = 'ok' if not bad_w else 'sat'
         run.add(ob)
         if bad_w:
-            run.violation('frame:%s' % name, '%s writes a mutable global that is not a dispatch cache: %s' % (name, bad_w[:2]), run.write_replay('frame' + name, {'entry': fname, 'globals_written': bad_w}))
+            tl = [n for n in bad_w if getattr(mod.globals.get(n[2:]), 'thread_local', False)]
+            run.violation('frame:%s' % name, '%s writes %s that is not a dispatch cache (state shared by independent instances): %s' % (name, 'a thread-local' if tl else 'a mutable global', (tl or bad_w)[:2]), run.write_replay('frame' + name, {'entry': fname, 'globals_written': bad_w}))
         bad_r = [n for n, k in readg if not any(c in n for c in CACHES) and (mod.globals.get(n[2:]) is not None and not mod.globals[n[2:]].constant)]
         ob = check.Obligation('%s/%s-cache/P1-frame: mutable globals read are only the caches' % (name, mode))
         ob.n_pairs = 1
@@ -57,7 +58,8 @@ def one(run, idx):
         if bad_r:
             run.violation('frame-read:%s' % name, '%s reads a mutable global that is not a dispatch cache: %s' % (name, bad_r[:2]), run.write_replay('frameread' + name, {'entry': fname, 'globals_read': bad_r}))
         # P2: atomic or inside Once
-        bad_s = [(n, at, once) for n, at, once in ex.global_store_log if not at and not once]
+        # (a plain store to a thread_local is not a data race; it is per-thread state shared by all instances on that thread: P1's business)
+        bad_s = [(n, at, once) for n, at, once in ex.global_store_log if not at and not once and not getattr(mod.globals.get(n[2:] if n.startswith('g:') else n), 'thread_local', False)]
         ob = check.Obligation('%s/%s-cache/P2: every store to a global is atomic or inside a Once initialiser' % (name, mode))
         ob.n_pairs = 1
         ob.status = 'ok' if not bad_s else 'sat'
